@@ -21,6 +21,7 @@ import (
 	"fmt"
 
 	"github.com/attestantio/dirk/rules"
+	"github.com/attestantio/dirk/util/verifhook"
 	"github.com/opentracing/opentracing-go"
 	"github.com/pkg/errors"
 	e2types "github.com/wealdtech/go-eth2-types/v2"
@@ -141,6 +142,9 @@ func (s *Service) storeSignBeaconProposalState(ctx context.Context, pubKey []byt
 
 	err := s.store.Store(ctx, key, state.Encode())
 	if err != nil {
+		return err
+	}
+	if err := verifhook.Point("store.exit", key); err != nil {
 		return err
 	}
 
